@@ -1135,7 +1135,7 @@ func (g *gen) genTx(bi int) {
 		}
 		s.ReplayBlock, s.ReplayTx = ref[0], ref[1]
 		if r.Chance(0.45) {
-			s.Mut = []string{"fee", "memo", "entropy", "msg", "sflip", "sflip", "memosp"}[r.Intn(7)]
+			s.Mut = []string{"fee", "memo", "entropy", "msg", "sflip", "sflip", "memosp", "membyte", "strbyte"}[r.Intn(9)]
 		}
 		g.addTx(bi, s)
 		return
@@ -1191,7 +1191,7 @@ func (g *gen) genTx(bi int) {
 		case 1:
 			s.ChainID = "otherchain"
 		case 2:
-			s.Mut = []string{"fee", "memo", "entropy", "msg", "sigbit", "sigtrunc", "pubkey", "sflip", "nomsg", "nopubstake", "msigshort", "hashsig", "memosp"}[r.Intn(13)]
+			s.Mut = []string{"fee", "memo", "entropy", "msg", "sigbit", "sigtrunc", "pubkey", "sflip", "nomsg", "nopubstake", "msigshort", "hashsig", "memosp", "membyte", "strbyte"}[r.Intn(15)]
 			if isMultiType(g.kr.Get(s.SignBy).Type) && r.Chance(0.6) {
 				s.Mut = []string{"msigshort", "onecosigner"}[r.Intn(2)]
 			}
@@ -1206,6 +1206,12 @@ func (g *gen) genTx(bi int) {
 		s.Memo = string(make([]byte, 257))
 	} else if r.Chance(0.1) {
 		s.Memo = "m"
+	} else if r.Chance(0.06) {
+		// notes that are not text: bytes that are not valid UTF-8, a NUL, an escape-worthy character
+		s.MemoHex = []string{"706179ff", "fffe", "6100", "22", "c3", "e282"}[r.Intn(6)]
+		if s.Mut == "" && r.Chance(0.5) {
+			s.Mut = "membyte"
+		}
 	}
 	g.addTx(bi, s)
 }
